@@ -52,14 +52,17 @@ def apply_patch(wt, patch):
   return rc, out
 
 
-def do_import(pid, x):
-  src = f'/tmp/wt_out/{pid}/{x}'
+def do_import(pid, x, src_root='/tmp/wt_out', base=None):
+  global PINNED
+  if base:
+    PINNED = base
+  src = f'{src_root}/{pid}/{x}'
   name = f'{pid}_{x}'
   dst = os.path.join(VERIF, 'seeded', name)
   os.makedirs(dst, exist_ok=True)
   for f in ('patch.diff', 'demo.py', 'notes.md'):
     shutil.copy(os.path.join(src, f), os.path.join(dst, f))
-  meta = {'property': pid, 'variant': x, 'pinned_commit': PINNED}
+  meta = {'property': pid, 'variant': x, 'pinned_commit': PINNED, 'base_commit': PINNED}
   wt = mk_worktree('imp_' + name, PINNED)
   try:
     env = {'PYTHONPATH': wt, 'PYTHONDONTWRITEBYTECODE': '1'}
@@ -112,7 +115,7 @@ def do_run(name, check_id=None, tier='quick', seed='1'):
 
 def main(argv):
   if argv[0] == 'import':
-    do_import(argv[1], argv[2])
+    do_import(argv[1], argv[2], *(argv[3:5]))
   elif argv[0] == 'run':
     do_run(argv[1], argv[2] if len(argv) > 2 else None, argv[3] if len(argv) > 3 else 'quick',
            argv[4] if len(argv) > 4 else '1')
